@@ -141,14 +141,14 @@ def grid(specdir, module, cfgname, overrides, timeout):
 
 # ----------------------------------------------------------------------------- harness
 
-def replay(behaviours, wd, tag, mode="app", controls="", extra=None, timeout=3600):
+def replay(behaviours, wd, tag, mode="app", controls="", extra=None, timeout=3600, env=None):
     inp = os.path.join(wd, tag + ".behaviours.ndjson")
     outp = os.path.join(wd, tag + ".trace.ndjson")
     with open(inp, "w") as f:
         for b in behaviours:
             f.write(json.dumps(b) + "\n")
     cmd = [BIN, "run", "-in", inp, "-out", outp, "-mode", mode, "-controls", controls] + (extra or [])
-    rc, out, dt = run(cmd, timeout, what="orbsim run")
+    rc, out, dt = run(cmd, timeout, what="orbsim run", env=env)
     if rc != 0:
         raise Machinery("orbsim failed (rc=%d): %s" % (rc, out[-3000:]))
     return outp, dt
